@@ -262,6 +262,15 @@ def exact_inside(row, bound, norm) -> bool:
         return pos <= 1 and all(bool(x <= b) for x, b in rest)
     if norm == float("inf"):
         return all(bool(x <= b) for x, b in rest)
+    if norm == 0.5 and all(getattr(x, "is_const", lambda: False)() for x, _ in rest):
+        # concrete values (native runs): 60-digit decimals decide sum(sqrt(x/b)) <= 1; an exact tie is a sum of square roots
+        # of rationals equal to 1, which only happens when every root is rational -- then the decimals are exact enough too
+        import decimal
+
+        with decimal.localcontext() as dc:
+            dc.prec = 60
+            s = sum((decimal.Decimal(x.const_value().numerator) / decimal.Decimal(x.const_value().denominator) / decimal.Decimal(b)).sqrt() for x, b in rest)
+            return s <= decimal.Decimal(1) + decimal.Decimal(10) ** -50
     tot = Sym.const(0)
     for x, b in rest:
         t = x / b
@@ -293,6 +302,8 @@ def body_ct(ctx: H.BaseCtx):
                 ENGINE.assume(_z3.And(z3_atom(a) >= 0, z3_atom(a) <= case["imax"]))
         arr = oarray([x for r in rows for x in r], (M_, D))
     else:
+        if any(vals[a] < 0 or vals[a] > case["imax"] for r in atoms for a in r):
+            return  # index tuples are non-negative (the symbolic run assumes 0 <= i <= imax): nothing to run natively
         rows = [[Sym.const(vals[a]) for a in r] for r in atoms]
         arr = numpy.array([[int(vals[a]) for a in r] for r in atoms], dtype=int)
     bound = case["bound"]
@@ -443,6 +454,9 @@ def replay_case(case, values, rec):
     if case.get("part") == "Cseq":
         r = run_sequence(case)
         return [H.Issue(c["kind"], c["op"], c["detail"]) for c in r["confirmed"]]
+    if case.get("part") == "Acarrier":
+        r = run_carriers(case)
+        return [H.Issue(c["kind"], c["op"], c["detail"]) for c in r["confirmed"]]
     if case.get("part") == "C":
         r = glexindex_membership(case["cfg"])
         return [H.Issue(rec.get("kind", "membership"), "glexindex", r.get("detail", ""))] if r["status"] == "counterexample" else []
@@ -466,9 +480,49 @@ def run_sequence(case: Dict) -> Dict:
             "stats": {"validity_queries": nq, "decisions": nq}, "fidelity_runs": nq, "wall_s": time.time() - t0}
 
 
+def run_carriers(case: Dict) -> Dict:
+    """Native: the same key matrix handed to the real glexsort in every carrier a caller may use (2-d arrays of narrow / unsigned /
+    float types and other memory orders, a tuple of 1-d rows as numpy.lexsort takes, nested lists), with entries up to the
+    carrier's limits; the answer must be a sorting permutation by the independent reference in every case."""
+    import numpoly
+
+    t0 = time.time()
+    rng = random.Random(case["k"])
+    confirmed = []
+    n = 0
+    for _rep in range(case["reps"]):
+        D, N = rng.choice([(1, 5), (2, 4), (2, 7), (3, 5), (4, 6)])
+        hi = rng.choice([2, 120, 250])
+        keys = [[rng.randrange(hi + 1) for _ in range(N)] for _ in range(D)]
+        for cname, mk in (
+            ("2-d uint8 array", lambda: numpy.array(keys, dtype=numpy.uint8)), ("2-d int8 array", lambda: numpy.array(keys, dtype=numpy.uint8).astype(numpy.int8) if hi <= 120 else None),
+            ("tuple of uint8 rows", lambda: tuple(numpy.array(r_, dtype=numpy.uint8) for r_ in keys)), ("list of uint16 rows", lambda: [numpy.array(r_, dtype=numpy.uint16) for r_ in keys]),
+            ("nested lists", lambda: [list(r_) for r_ in keys]), ("Fortran-ordered int64", lambda: numpy.asfortranarray(numpy.array(keys, dtype=numpy.int64))),
+            ("float64 array", lambda: numpy.array(keys, dtype=float)), ("uint32 transposed view", lambda: numpy.array(keys, dtype=numpy.uint32).T.copy().T),
+        ):
+            k_ = mk()
+            if k_ is None:
+                continue
+            for g in (False, True):
+                for r_ in (False, True):
+                    n += 1
+                    try:
+                        out = numpy.asarray(numpoly.glexsort(k_, graded=g, reverse=r_))
+                        ok = ref_sorted(numpy.array(keys), g, r_, out.tolist())
+                        detail = "glexsort(%s = %s, graded=%s, reverse=%s) -> %s is not a sorting permutation" % (cname, keys, g, r_, out.tolist())
+                    except Exception as e:
+                        ok, detail = False, "glexsort(%s = %s, graded=%s, reverse=%s) raises %s: %s" % (cname, keys, g, r_, type(e).__name__, str(e)[:80])
+                    if not ok and len(confirmed) < 3:
+                        confirmed.append({"kind": "order", "op": "glexsort-carrier", "detail": detail, "signature": "glexsort-carrier|%s" % cname, "values": {}, "preconfirmed": True})
+    return {"case": case, "paths": 1, "exhausted": True, "nontrivial": True, "path_log": [{"native_calls": n}], "confirmed": confirmed, "unconfirmed": [], "raw_issues": len(confirmed),
+            "stats": {"validity_queries": 0, "decisions": n}, "fidelity_runs": n, "wall_s": time.time() - t0}
+
+
 def run_case(case: Dict) -> Dict:
     t0 = time.time()
     part = case["part"]
+    if part == "Acarrier":
+        return run_carriers(case)
     if part == "Cseq":
         return run_sequence(case)
     if part == "A":
@@ -547,6 +601,9 @@ def gen_cases(tier: str, seed: int) -> List[Dict]:
     rng.shuffle(pairs)
     carriers = [dict(c_, carrier=cr) for cr in ("uint32", "uint8", "int8", "uint64", "int64") for c_ in rng.sample(cfgs, 3 if quick else 12)]
     take = sphere[: (6 if quick else len(sphere))] + carriers + pairs[: (14 if quick else len(pairs))] + cfgs[: 120 if quick else len(cfgs)]
+    for k in range(4 if quick else 40):
+        n += 1
+        cases.append({"id": "%s-%03d-glexsort-carriers" % (PROP, n), "op": "glexsort-carrier", "part": "Acarrier", "k": k, "reps": 6 if quick else 20})
     # sequences in one process: the same numbers split differently between start and stop, and the same bounds under
     # different norms / sort flags (a result must not depend on earlier calls)
     seqs = [
